@@ -196,6 +196,10 @@ def run(ctx):
             if i % 23 == 7:
                 # a string whose text is the word None, under a type that makes the codec quote it
                 typ, tc, value, dc = ctx.rng.choice([("str", "scalar_str"), ("Optional[str]", "optional_str"), ("Union[int, str]", "union_scalar")]) + ("None", "str_none_word")
+            if i % 31 == 9:
+                # a string whose own text begins / ends with the quote mark the renderer wraps it in
+                typ, tc = ctx.rng.choice([("Optional[str]", "optional_str"), ("Union[int, str]", "union_scalar")])
+                value, dc = ctx.rng.choice(['say "zq hi"', '3.5"', '"zq quoted" first']), "str_edge_quote"
             if i % 29 == 11:
                 # numbers and booleans under a type that also admits strings (the renderer's quoting path sees them);
                 # 1.0 / True and 0.0 / False are EQUAL values of different types
